@@ -313,7 +313,7 @@ class Bit:
     __index__ = __int__
 
     def __hash__(self):
-        return _SYM_HASH
+        return hash(int(self))      # cells of binary vectors used as dict keys: realise (2 values)
 
     def __repr__(self):
         return f'Bit({self.t})'
@@ -532,6 +532,8 @@ class SymInt:
         return f'SymInt({self.t})'
 
     def __hash__(self):
+        if engine().hash_mode == 'realise':
+            return hash(int(self))
         return _SYM_HASH
 
     def __bool__(self):
@@ -703,6 +705,24 @@ class SymInt:
         return (self // o, self % o)
 
     # -- comparisons
+    def _pb(self, o, op):
+        """Pseudo-Boolean encoding of (bit-affine form) <op> constant."""
+        c = _conc_int(o)
+        if c is None or self.aff is None or not self.aff[1] or len(self.aff[1]) < 3:
+            return None
+        c0, terms = self.aff
+        if any(k <= 0 for _, k in terms):
+            return None
+        args = [(t, k) for t, k in terms]
+        k = c - c0
+        if op == 'le':
+            return z3.BoolVal(False) if k < 0 else z3.PbLe(args, k)
+        if op == 'ge':
+            return z3.BoolVal(True) if k <= 0 else z3.PbGe(args, k)
+        if op == 'eq':
+            return z3.BoolVal(False) if k < 0 else z3.PbEq(args, k)
+        return None
+
     def _cmp(self, o, f):
         if isinstance(o, np.ndarray):
             return NotImplemented
@@ -714,6 +734,9 @@ class SymInt:
         return f(self.t, b.t)
 
     def __eq__(self, o):
+        pb = self._pb(o, 'eq')
+        if pb is not None:
+            return SymBool(pb)
         r = self._cmp(o, lambda a, b: a == b)
         if r is NotImplemented:
             return r
@@ -722,6 +745,9 @@ class SymInt:
         return SymBool(r)
 
     def __ne__(self, o):
+        pb = self._pb(o, 'eq')
+        if pb is not None:
+            return SymBool(z3.Not(pb))
         r = self._cmp(o, lambda a, b: a != b)
         if r is NotImplemented:
             return r
@@ -730,18 +756,32 @@ class SymInt:
         return SymBool(r)
 
     def __lt__(self, o):
+        c = _conc_int(o)
+        pb = self._pb(c - 1, 'le') if c is not None else None
+        if pb is not None:
+            return SymBool(pb)
         r = self._cmp(o, lambda a, b: a < b)
         return r if r is NotImplemented or r is None else SymBool(r)
 
     def __le__(self, o):
+        pb = self._pb(o, 'le')
+        if pb is not None:
+            return SymBool(pb)
         r = self._cmp(o, lambda a, b: a <= b)
         return r if r is NotImplemented or r is None else SymBool(r)
 
     def __gt__(self, o):
+        c = _conc_int(o)
+        pb = self._pb(c + 1, 'ge') if c is not None else None
+        if pb is not None:
+            return SymBool(pb)
         r = self._cmp(o, lambda a, b: a > b)
         return r if r is NotImplemented or r is None else SymBool(r)
 
     def __ge__(self, o):
+        pb = self._pb(o, 'ge')
+        if pb is not None:
+            return SymBool(pb)
         r = self._cmp(o, lambda a, b: a >= b)
         return r if r is NotImplemented or r is None else SymBool(r)
 
@@ -942,6 +982,9 @@ class Engine:
         self._fresh = itertools.count()
         self._path_fresh = itertools.count()
         self.div_guards: List[Any] = []
+        # 'const': symbolic ints hash alike (symbolic coordinates as dict keys, equality forks);
+        # 'realise': hashing an int enumerates its feasible values (lookup in concrete-key dicts)
+        self.hash_mode = 'const'
 
     # -- session
     def __enter__(self):
